@@ -132,9 +132,10 @@ MV(D, g, v)  == [j \in 1..D.p |-> SumSeq([l \in 1..D.p |-> SMD(D.M[j][l], v[l], 
 RowAbs(D, j) == AbsSum(D.M[j])
 
 \* eigen-equation of the sample covariance:  M v_i = n sigma_i^2 v_i
-EigOk(D, k, g, f, nv, eq) ==
+MVs(D, k, g, nv) == [i \in 1..k |-> MV(D, g, nv[i])]     \* computed once per fit (LET-cached)
+EigOk(D, k, g, f, nv, eq, mvs) ==
   \A i \in 1..k :
-     LET mv == MV(D, g, nv[i])  s2 == S2(f, i) IN
+     LET mv == mvs[i]  s2 == S2(f, i) IN
      \A j \in 1..D.p :
         Abs(mv[j] - D.n * SMD(s2, nv[i][j], S * g))
            <= TolRel(D, g)
@@ -147,13 +148,12 @@ TraceOk(D, g, f) ==
      <= TolRel(D, g) + (D.n * SumSeq([i \in 1..D.p |-> SigC(f, i)])) \div g + D.n * D.p + 2
 
 \* v_i^T M v_l / g at scale S
-VMV(D, g, nv, i, l) ==
-  LET mv == MV(D, g, nv[l]) IN SumSeq([j \in 1..D.p |-> SMD(mv[j], nv[i][j], S)])
+VMV(D, mvs, nv, i, l) == SumSeq([j \in 1..D.p |-> SMD(mvs[l][j], nv[i][j], S)])
 
 \* projected centred training data: uncorrelated coordinates with sample variance sigma_i^2/(n-1)
-CovOk(D, k, g, f, nv, eq) ==
+CovOk(D, k, g, f, nv, eq, mvs) ==
   \A i \in 1..k : \A l \in i..k :
-     LET c   == VMV(D, g, nv, i, l)
+     LET c   == VMV(D, mvs, nv, i, l)
          tol == 2 * TolRel(D, g) + 3 * (D.tr \div g + 1) * Max2(eq[i], eq[l]) + 2 * D.p + 2
      IN IF i = l THEN Abs(c - D.n * (S2(f, i) \div g)) <= tol + (D.n * SigC(f, i)) \div g + D.n
                  ELSE Abs(c) <= tol
@@ -199,9 +199,12 @@ LatOk(D, k, g, f, nv, eq) ==
   IN \A u \in LatU(D.p) :
        LET uu == Dot(u, u)
            u1 == AbsSum(u)
-           dd == [i \in 1..k |-> LET du == Dot(nv[i], u) IN SMD(du, du, S * (S \div h))]   \* (v_i.u)^2 at scale h
-           lhs == QuadM(D, u) * h - SumSeq([i \in 1..k |-> SMD(ns[i], dd[i], h)])
-       IN lhs <= ns[k] * uu + h * ((D.tr * uu) \div 1000 + (D.tr * u1 * u1 * eqm) \div 8000 + 2) + 2 * k + uu * D.n
+           dd == [i \in 1..k |-> LET du == Dot(nv[i], u) IN SMD(du, du, S)]     \* (v_i.u)^2 at scale S
+           \* u^T (M - sum_i n sigma_i^2 v_i v_i^T) u  at scale h
+           lhs == QuadM(D, u) * h - SumSeq([i \in 1..k |-> SMD(ns[i], dd[i], S)])
+       IN lhs <= ns[k] * uu
+                 + h * ((D.tr * uu) \div 1000 + (D.tr * u1 * u1 * eqm) \div 5000 + (k * D.tr) \div 10000 + 2)
+                 + 2 * k + uu * D.n
 
 -----------------------------------------------------------------------------
 (* named deviations (known findings) -- each models what the defective code computes *)
@@ -226,10 +229,11 @@ FitWhy(D, k, wh, f, full, devs) ==
   ELSE IF ~SigOk(D, k, f) THEN "sigma-order/range"
   ELSE IF ~CompBound(D, k, wh, f) THEN "component-magnitude"
   ELSE LET nv == NV(D, k, wh, f)  eq == EQ(D, k, wh, f)  g == G(D)
+           mvs == MVs(D, k, g, nv)
            ritz == DevRitz \in devs /\ k > 1 /\ k < D.p
        IN IF ~OrthOk(D, k, nv, eq) THEN "orthonormal"
-          ELSE IF ~CovOk(D, k, g, f, nv, eq) THEN "projected-covariance"
-          ELSE IF ~ritz /\ ~EigOk(D, k, g, f, nv, eq) THEN "eigen-equation"
+          ELSE IF ~CovOk(D, k, g, f, nv, eq, mvs) THEN "projected-covariance"
+          ELSE IF ~ritz /\ ~EigOk(D, k, g, f, nv, eq, mvs) THEN "eigen-equation"
           ELSE IF k = D.p /\ ~TraceOk(D, g, f) THEN "trace"
           ELSE IF ~ritz /\ (k < D.p \/ wh) /\ ~LeadOk(D, k, f, full) THEN "leading-singular-values"
           ELSE IF ~ritz /\ k < D.p /\ ~LatOk(D, k, g, f, nv, eq) THEN "rayleigh-bound"
@@ -463,7 +467,7 @@ ClauseSensitive ==
         f  == AnsFit(st.p, st.amp, st.off, st.k, st.wh, st.ord, st.tag)
         nv == NV(D, st.k, st.wh, f)
         eq == EQ(D, st.k, st.wh, f)
-    IN CASE st.tag = "rot"      -> ~EigOk(D, st.k, G(D), f, nv, eq)
+    IN CASE st.tag = "rot"      -> ~EigOk(D, st.k, G(D), f, nv, eq, MVs(D, st.k, G(D), nv))
          [] st.tag = "trailing" -> ~LeadOk(D, st.k, f, FullS2(st.p, st.amp, st.ord)) /\ ~LatOk(D, st.k, G(D), f, nv, eq)
          [] st.tag = "sig2"     -> st.k = st.p => ~TraceOk(D, G(D), f)
          [] st.tag = "scale105" -> ~OrthOk(D, st.k, nv, eq)
